@@ -201,23 +201,34 @@ static void upipe_ts_psim_input(struct upipe *upipe, struct uref *uref,
         upipe_ts_psim_flush(upipe);
 
     if (ubase_check(uref_block_get_start(uref))) {
-        if (likely(upipe_ts_psim->acquired)) {
-            /* just remove pointer_field */
-            if (unlikely(!ubase_check(uref_block_resize(uref, 1, -1)))) {
-                uref_free(uref);
-                upipe_ts_psim_flush(upipe);
-                return;
-            }
-        } else {
-            /* jump to the start of the next section */
-            uint8_t pointer_field;
-            if (unlikely(!ubase_check(uref_block_extract(uref, 0, 1, &pointer_field)) ||
-                         !ubase_check(uref_block_resize(uref, 1 + pointer_field, -1)))) {
-                uref_free(uref);
-                return;
-            }
-            upipe_ts_psim_sync_acquired(upipe);
+        uint8_t pointer_field;
+        if (unlikely(!ubase_check(uref_block_extract(uref, 0, 1, &pointer_field)))) {
+            uref_free(uref);
+            upipe_ts_psim_flush(upipe);
+            return;
         }
+        if (upipe_ts_psim->next_uref != NULL && pointer_field) {
+            /* the octets before the pointer end the section in progress */
+            struct uref *tail = uref_dup(uref);
+            if (likely(tail != NULL &&
+                       ubase_check(uref_block_resize(tail, 1, pointer_field)))) {
+                uref_block_delete_start(tail);
+                while (upipe_ts_psim_merge(upipe, tail, upump_p));
+            }
+            uref_free(tail);
+        }
+        if (unlikely(upipe_ts_psim->next_uref != NULL)) {
+            upipe_warn(upipe, "section does not end at pointer_field");
+            upipe_ts_psim_flush(upipe);
+        }
+        /* jump to the start of the next section */
+        if (unlikely(!ubase_check(uref_block_resize(uref, 1 + pointer_field, -1)))) {
+            uref_free(uref);
+            upipe_ts_psim_flush(upipe);
+            return;
+        }
+        if (unlikely(!upipe_ts_psim->acquired))
+            upipe_ts_psim_sync_acquired(upipe);
         uref_block_delete_start(uref);
 
     } else if (unlikely(upipe_ts_psim->next_uref == NULL)) {
